@@ -92,7 +92,47 @@ def gen_hub(R, tier):
                 frag_block='{' + ','.join(frs) + '}', base_nodes=gnodes, base_edges=gedges, legacy_false_ok=False, features=sorted({'hub_atom_shared_by_%d' % k, 'sharing_tree:' + shape, 'atom_shared_by_3+'} | ({'hydrogen_fragment_on_shared_atom'} if hfrag is not None else set())))
 
 
+def gen_shared_with_caps(R, tier):
+    """chain C-A-B-D: A and B share one carbon, and each copy of it also carries an ordinary descriptor towards
+    its own cap (C resp. D), written before or after the '!': {[#C][#A][#B][#D]}.{#A=CC[$a][!x],#B=[$b][!x]CC,#C=[$a]O,#D=[$b]N}"""
+    import networkx as nx
+    ca, cb, cc, cd = [R.choice(CHAINS) for _ in range(4)]
+    m = molgen.Mol()
+    hub = m.add_atom('C')
+    for ch in (ca, cb, cc, cd):
+        prev = hub
+        for e in ch:
+            a = m.add_atom(e)
+            m.add_bond(prev, a, 1)
+            prev = a
+
+    def txt(ch):
+        return ''.join(ch)
+
+    def rev(ch):
+        return ''.join(reversed(ch))
+    first = R.chance(0.7)
+    ka, kb = R.choice(['$', '>']), R.choice(['$', '<'])
+    da = '[%sa]' % ka
+    dca = '[%sa]' % ('$' if ka == '$' else '<')
+    db = '[%sb]' % kb
+    dcb = '[%sb]' % ('$' if kb == '$' else '>')
+    pa = (da + '[!x]') if first else ('[!x]' + da)
+    pb = (db + '[!x]') if (first or R.chance(0.5)) else ('[!x]' + db)
+    frs = ['#A=%s[C]%s' % (rev(ca), pa), '#B=[C]%s%s' % (pb, txt(cb)), '#C=%s%s' % (dca, txt(cc)), '#D=%s%s' % (dcb, txt(cd))]
+    R.shuffle(frs)
+    g = nx.Graph()
+    g.add_edge(0, 1, order=1)
+    g.add_edge(1, 2, order=1)
+    g.add_edge(2, 3, order=1)
+    s = molgen.write_base(R, g, ['C', 'A', 'B', 'D']) + '.{' + ','.join(frs) + '}'
+    return dict(input=s, twin=None, model=m.to_json(), nshared=1, natoms=len(m.atoms) + 1, nfr=4, legacy_false_ok=False,
+                features=sorted({'both_copies_of_a_shared_atom_carry_an_ordinary_descriptor'} | ({'every_squash_descriptor_written_second'} if first else set())))
+
+
 def gen(R, tier):
+    if R.chance(0.06):
+        return gen_shared_with_caps(R, tier)
     if R.chance(0.08):
         return gen_hub(R, tier)
     if R.chance(0.2):
